@@ -907,6 +907,24 @@ def rt_delimited(acc, header, rows, conf, case, probe=False):
                          {"got": jv(gv), "got_type": type(py(gv)).__name__, "want": jv(v), "text": text[:300]})
     if not probe:
         acc.outcome(("rt", label, "loaded", ok))
+    # the other reader of delimited text: load_table(reader=FilteringParser(...)) splits lines itself and returns text; where
+    # no cell needs quoting it must see the same header and the same cells (an empty first / last cell included)
+    texts = [expected_text(h) for h in header] + [expected_text(v) for r in rows for v in r]
+    if (ok and writer_ok and not probe and label == "write(.tsv)" and len(header) > 1 and rows
+            and all(not any(ch in t for ch in '\t"\n\r') and t == t.strip() for t in texts)
+            and not all(all(expected_text(v) == "" for v in r) for r in rows)):
+        from cogent3.parse.table import FilteringParser
+
+        try:
+            g2 = load_table(path, reader=FilteringParser(with_header=True, sep="\t"))
+            gh2 = [str(h) for h in g2.header]
+            grows2 = [[str(x) for x in r] for r in g2.array.tolist()]
+            want2 = [[expected_text(v) for v in r] for r in rows if any(expected_text(v) != "" for v in r)]
+            if gh2 != list(header) or grows2 != want2:
+                fail("load_table(reader=FilteringParser): header / cells differ from the default loader [plain cells, possibly empty]",
+                     {"got_header": gh2, "got": grows2[:4], "want": want2[:4], "text": text[:300]})
+        except Exception as e:  # noqa: BLE001
+            fail(f"load_table(reader=FilteringParser): raised {type(e).__name__} [plain cells, possibly empty]", {"error": str(e)[:200], "text": text[:300]})
 
 
 def rt_exact(acc, header, rows, label, case):
@@ -954,6 +972,34 @@ def rt_exact(acc, header, rows, label, case):
 
 
 EXACT = ["write(.json)", "write(.json.gz)", "write(.pickle)", "pickle.dumps/loads", "to_json()/deserialise_object"]
+
+
+MIXED = [True, 1, 1.0, False, 0, 0.0]
+
+
+def check_mixed(acc):
+    """columns of mixed python types (object columns): values that are equal across types (True == 1 == 1.0) keep their
+    own text, whatever was formatted before them - in the same column, or in an earlier table of the same process"""
+    for first in itertools.product(MIXED, repeat=2):
+        for second in itertools.product(MIXED, repeat=2):
+            case = {"part": "mixed", "first_table": jv(list(first)), "second_table": jv(list(second))}
+            acc.case(case, nontrivial=True)
+            for label, vals in (("first", first), ("second", second)):
+                rows = [(f"r{i}", v) for i, v in enumerate(vals)] + [("rz", "x")]
+                t = mk(["k", "v"], rows)
+                for how, sep in (("to_csv", ","), ("to_tsv", "\t")):
+                    try:
+                        text = getattr(t, how)()
+                        body = list(csv.reader(io.StringIO(text, newline=""), dialect="excel", delimiter=sep))[1:]
+                    except Exception as e:  # noqa: BLE001
+                        acc.fail(f"Table.{how}(): raised {type(e).__name__} [column of mixed types]", case, {"error": str(e)[:200]})
+                        continue
+                    bad = [(v, r[1]) for (k, v), r in zip(rows, body) if not cell_text_ok(v, r[1], True)]
+                    if len(body) != len(rows) or bad:
+                        acc.fail("Table.to_csv()/to_tsv(): written cell text [column of mixed types: a value equal to one of another type]", dict(case, table=label),
+                                 {"text": text[:200], "wrong": jv(bad[:3])})
+            acc.outcome(("mixed", repr(first), repr(second)))
+    acc.sample({"mixed-type columns": True, "values": jv(MIXED)}, "mixed")
 
 
 def check_rt(acc, header, rows, case):
@@ -1007,6 +1053,7 @@ def shards(tier, seed):
         for c in range(nch):
             out.append({"part": "rt", "domain": "tiny", "rows": 2, "cols": 3, "chunk": c, "of": nch})
     out.append({"part": "rtheaders"})
+    out.append({"part": "mixed"})
     return out
 
 
@@ -1044,6 +1091,8 @@ def run_shard(spec, acc):
             case = {"part": "rt", "header": h, "rows": jv(rows)}
             check_rt(acc, h, rows, case)
             acc.sample({"header": h, "rows": jv(rows), "configs": [c[0] for c in DELIMITED] + EXACT}, f"rt{spec['rows']}x{spec['cols']}")
+    elif part == "mixed":
+        check_mixed(acc)
     elif part == "rtheaders":
         for h in RT_HEADERS:
             for ncols in (1, 2, 3):
@@ -1063,6 +1112,8 @@ def replay(case):
                     {k: case[k] for k in ("part", "domain", "types", "header", "rows")})
     elif part == "pairs":
         check_pair(acc, case["family"], [tuple(r) for r in case["rows1"]], [tuple(r) for r in case["rows2"]])
+    elif part == "mixed":
+        check_mixed(acc)
     else:
         rows = [tuple(unj(v) for v in r) for r in case["rows"]]
         check_rt(acc, case["header"], rows, {"part": "rt", "header": case["header"], "rows": case["rows"]})
